@@ -25,10 +25,18 @@ class S:
         self.d = d
 
     def __getattr__(self, n):
+        if n in ('d', 'k', 'line') or n.startswith('__'):
+            raise AttributeError(n)           # slots not yet set (unpickling) / special methods
         try:
             return self.d[n]
         except KeyError:
             raise AttributeError(n)
+
+    def __getstate__(self):
+        return (self.k, self.line, self.d)
+
+    def __setstate__(self, st):
+        self.k, self.line, self.d = st
 
     def __repr__(self):
         return 'S(%s@%s %s)' % (self.k, self.line, {k: v for k, v in self.d.items() if k not in ('body', 'then', 'els')})
